@@ -1209,6 +1209,7 @@ def expect_keyerror(f, *a):
 
 def check_C15(ctx):
     Ls = loaded_stream(ctx, ctx.scale(250, 3000))
+    lookup_jobs = []
     for L in Ls:
         if L.impl[0] != 'ok':
             continue
@@ -1278,11 +1279,38 @@ def check_C15(ctx):
         if bad:
             ctx.violation(bad[0], {'case': case_json(L.case), 'failures': bad[:10]})
             continue
+        lookup_jobs.append((L, sorted(xr.keys()) + ['no-such-x'], [nd.name for nd in d.path] + ['no-such-node']))
         diffs = compare_parser(L)
         if diffs and diffs != ['unmodelled']:
-            report_parser_layer(ctx, L, diffs, 'props/C15.v: c15_coherent')
+            report_parser_layer(ctx, L, diffs, 'props/C15.v: c15_gene_by_id')
         else:
             ctx.counts['parser_layer_agree'] += 1
+    # lookup layer: the model's cross-reference index and name lookup against the implementation's
+    reps = model.run_requests([['lookups', L.dump.named_tree_sx(), L.case.doc_sx(), ['ext'] + [Q(k) for k in ks],
+                                ['names'] + [Q(n) for n in ns]] for L, ks, ns in lookup_jobs])
+    for (L, ks, ns), rep in zip(lookup_jobs, reps):
+        ok = True
+        for k, r in zip(ks, rep[0]):
+            try:
+                got = ('ok', [g.unique_id for g in L.ham.get_genes_by_external_id(k)])
+            except KeyError:
+                got = ('KeyError',)
+            want = ('ok', [str(x) for x in r[1]]) if r[0] == 'ok' else (str(r[1]),)
+            if got != want:
+                ok = False
+        for n, r in zip(ns, rep[1]):
+            try:
+                got = ('ok', L.dump.path[L.ham.get_taxon_by_name(n)])
+            except KeyError:
+                got = ('KeyError',)
+            want = ('ok', P(r[1])) if r[0] == 'ok' else (str(r[1]),)
+            if got != want:
+                ok = False
+        if ok:
+            ctx.counts['lookup_layer_agree'] += 1
+        else:
+            ctx.violation('lookup layer: model and implementation disagree; props/C15.v no longer tied to the code',
+                          {'case': case_json(L.case), 'layer': 'lookup'}, no_input=True)
     # species trees whose names would make lookups ambiguous
     reqs, metas = [], []
     for i in range(ctx.scale(200, 2000)):
@@ -2165,8 +2193,23 @@ def gen_ops(ctx, S, n):
     return ops
 
 
+def session_op_sx(X, op):
+    """the operations the session model knows (the others create no genome and touch no cache)"""
+    if op[0] in ('vertical', 'lateral'):
+        return [op[0], list(op[1]), list(op[2])]
+    if op[0] == 'profile_full':
+        return ['profile_full']
+    if op[0] == 'clustering':
+        return ['clustering', list(op[1])]
+    if op[0] == 'iham':
+        h = X.by_key[op[1]]
+        return ['iham', X.d.oid_of(h)]
+    return None
+
+
 def check_C17(ctx):
     cases = [c for c in gen_main(ctx, ctx.scale(60, 500)) if c.consistent]
+    session_jobs = []
     for c in cases:
         ctx.record_case(c)
         if impl.load_impl(c)[0] != 'ok':
@@ -2177,10 +2220,16 @@ def check_C17(ctx):
         before = X.core()
         empty_before = X.empty_genomes()
         ops = gen_ops(ctx, X, ctx.scale(40, 150))
+        x_ops = []
+        genomes_at_load = sorted(X.d.genome_at.keys())
+        forest_at_load = X.d.forest_sx()
+        tree_sx = X.d.named_tree_sx()
         for i, op in enumerate(ops):
             ctx.counts['ops'] += 1
             ctx.dist['op=' + op[0]] += 1
             S = X if ctx.rng.random() < 0.7 else Y
+            if S is X:
+                x_ops.append(op)
             got = run_op(S, op)
             fresh = run_op(Session(c), op)
             if got != fresh:
@@ -2192,6 +2241,7 @@ def check_C17(ctx):
                               {'case': case_json(c), 'ops': [list(map(str, o)) for o in ops[:i + 1]], 'op': list(map(str, op)),
                                'after_history': repr(got)[:800], 'fresh': repr(fresh)[:800]}, finding_key=key)
                 break
+        session_jobs.append((c, X, tree_sx, forest_at_load, genomes_at_load, x_ops))
         after = X.core()
         if after != before:
             ctx.violation('analysis calls changed the loaded data (%s)' % sig_diff(before, after),
@@ -2204,6 +2254,23 @@ def check_C17(ctx):
                 ctx.violation('an empty %s appeared at %s after analysis calls' % (kind, list(p)),
                               {'case': case_json(c), 'ops': [list(map(str, o)) for o in ops], 'node': p},
                               finding_key='F8-extant-genome-for-undeclared-species' if p in undeclared else None)
+    # session layer: the genomes that exist after the history, model vs implementation
+    reqs = []
+    for c, X, tree_sx, fsx, gs, x_ops in session_jobs:
+        mops = [m for m in (session_op_sx(X, op) for op in x_ops) if m is not None]
+        reqs.append(['session', tree_sx, fsx, ['genomes'] + [list(p) for p in gs], ['ops'] + mops])
+    for (c, X, tree_sx, fsx, gs, x_ops), rep in zip(session_jobs, model.run_requests(reqs, chunk=50)):
+        X.d._genomes()
+        impl_g = sorted(X.d.genome_at.keys())
+        model_g = sorted(P(p) for p in rep[0][1:])
+        # vertical comparisons that raise (same genome twice, off-lineage) create nothing on either side
+        if impl_g != model_g:
+            ctx.violation('session layer: genomes existing after the call history differ between model and implementation; '
+                          'props/C17.v: c17_genomes_only_grow no longer tied to the code',
+                          {'case': case_json(c), 'ops': [list(map(str, o)) for o in x_ops], 'impl': impl_g, 'model': model_g,
+                           'layer': 'session'}, no_input=True)
+        else:
+            ctx.counts['session_layer_agree'] += 1
     for L in core.load_cases(cases):
         diffs = compare_parser(L)
         if diffs and diffs != ['unmodelled']:
